@@ -153,6 +153,27 @@ class Check:
             print('HARNESS-ERROR replay crashed rc=%s key=%s replay=%s\n%s' % (rc, key, fname, out[-800:]))
         sys.stdout.flush()
 
+    def probe(self, key, description, replay_src):
+        """A concrete probe for an obligation the solver could not decide (e.g. the value classes could not follow the code along some path):
+        the replay script is run against the real code; if it exits 1 the violation is reported like a solver counterexample, if it exits 0
+        nothing is claimed (the obligation stays inconclusive)."""
+        rdir = os.environ.get('VERIF_REPLAY_DIR') or os.path.join(ROOT, 'replays')
+        os.makedirs(rdir, exist_ok=True)
+        fname = os.path.join(rdir, '%s_%s_probe.py' % (self.pid, hashlib.sha1(key.encode()).hexdigest()[:10]))
+        with open(fname, 'w') as f:
+            f.write('# concrete probe for %s key=%s\n# %s\n' % (self.pid, key, description.replace('\n', ' ')[:500]))
+            f.write(replay_src)
+        rc, out = run_replay(fname)
+        self.counters['concrete_probes'] = self.counters.get('concrete_probes', 0) + 1
+        if rc == 1:
+            os.remove(fname)
+            self.violation(key, description, replay_src)
+        elif rc == 0:
+            os.remove(fname)
+        else:
+            self.harness_errors.append('probe script crashed rc=%s: %s' % (rc, key))
+            print('HARNESS-ERROR probe crashed rc=%s key=%s replay=%s\n%s' % (rc, key, fname, out[-800:]))
+
     # ---- finish ------------------------------------------------------------------------------------------
     def finish(self):
         wall = time.time() - self.t0
